@@ -122,7 +122,8 @@ def run(work, outp):
         elif f.endswith("volume_mgr.rs"):
             subset = [c for c in CHECKS if c not in ("C12", "C13", "C14", "C17", "C18", "C19")]
         else:
-            subset = [c for c in CHECKS if c not in ("C08", "C12", "C13", "C14", "C17", "C18", "C19")]
+            # (src/fat/volume.rs also holds the long-name listing: C17)
+            subset = [c for c in CHECKS if c not in ("C08", "C12", "C13", "C14", "C18", "C19")]
         for c in subset:
             rc = subprocess.run("cd /verif && ./check %s quick > /dev/null 2>&1" % c, shell=True).returncode
             if rc == 1:
